@@ -22,6 +22,9 @@ import xml.etree.ElementTree as ET
 VERIF = os.path.dirname(os.path.dirname(os.path.abspath(__file__)))
 SEEDED = os.path.join(VERIF, "benign")
 REPO = "/repo"
+# the stored patches were written against this commit of /repo; later commits there (hooks) must not
+# invalidate them, so scratch worktrees are created at the base recorded in meta.json (default below)
+BASE = "7657fee"
 
 
 def sh(cmd, **kw):
@@ -61,6 +64,7 @@ def cmd_import(src, prop):
         meta = load_meta("%s-b%d" % (prop, k))
         meta["property"] = prop
         meta["origin"] = "independent sub-agent given only the property text and a scratch worktree"
+        meta["base"] = sh(["git", "-C", REPO, "rev-parse", "--short", "HEAD"]).stdout.strip()
         save_meta("%s-b%d" % (prop, k), meta)
         print("imported", dst)
 
@@ -87,7 +91,7 @@ def cmd_confirm(name):
     d = os.path.join(SEEDED, name)
     wt = "/tmp/sc_%s" % name
     sh(["git", "-C", REPO, "worktree", "remove", "--force", wt])
-    r = sh(["git", "-C", REPO, "worktree", "add", "--detach", wt, "HEAD"])
+    r = sh(["git", "-C", REPO, "worktree", "add", "--detach", wt, load_meta(name).get("base", BASE)])
     if r.returncode:
         print(r.stdout)
         return False
@@ -136,6 +140,9 @@ def cmd_run(name, tier="quick", in_repo=False, other=None):
     env = dict(os.environ)
     wt = None
     if in_repo:
+        if sh(["git", "-C", REPO, "merge-base", "--is-ancestor", "HEAD", meta.get("base", BASE)]).returncode:
+            print("refusing --in-repo: /repo HEAD is not the base this patch was written against")
+            sys.exit(2)
         st = sh(["git", "-C", REPO, "status", "--porcelain"])
         if st.stdout.strip():
             print("refusing: /repo has uncommitted changes")
@@ -144,7 +151,7 @@ def cmd_run(name, tier="quick", in_repo=False, other=None):
     else:
         wt = "/tmp/sr_%s" % name
         sh(["git", "-C", REPO, "worktree", "remove", "--force", wt])
-        r = sh(["git", "-C", REPO, "worktree", "add", "--detach", wt, "HEAD"])
+        r = sh(["git", "-C", REPO, "worktree", "add", "--detach", wt, load_meta(name).get("base", BASE)])
         if r.returncode:
             print(r.stdout)
             return
